@@ -96,6 +96,14 @@ static void sclr3(void *p, void *priv)
     ev_add("[\"cblock\",%d]", cstl_shared_ptr_get(&tmp) != NULL ? 1 : 0);
     cstl_shared_ptr_reset(&tmp);
 }
+/* a clear callback that resets another shared pointer object (S[NS]) - unless that is the object the running
+ * operation is re-targeting: a second allocation may be torn down inside the first one's callback */
+static int cur_self;
+static void sclr4(void *p, void *priv)
+{
+    sclr(p, priv);
+    if (cur_self != NS) { int save = cur_self; cur_self = NS; cstl_shared_ptr_reset(&S[NS]); cur_self = save; }    /* S[NS] is being re-targeted meanwhile */
+}
 static void uclr(void *p, void *priv)
 {
     int i;
@@ -214,10 +222,11 @@ static void drv_apply(const vop_t *op, jb_t *res)
 {
     const int *a = op->a;
     snapshot(); nalloc_in_op = 0; new_d = NULL; opkind = op->k;
+    cur_self = op->k == 0 || op->k == 3 ? a[0] : op->k == 1 || op->k == 7 ? a[1] : op->k == 15 ? NS : 0;
     switch (op->k) {
     case 0:
         a_begin((unsigned long)a[2]);
-        cstl_shared_ptr_alloc(&S[a[0]], a[3] ? 0 : 16, a[1] == 3 ? sclr3 : a[1] == 2 ? sclr2 : a[1] ? sclr : NULL);
+        cstl_shared_ptr_alloc(&S[a[0]], a[3] ? 0 : 16, a[1] == 4 ? sclr4 : a[1] == 3 ? sclr3 : a[1] == 2 ? sclr2 : a[1] ? sclr : NULL);
         a_end();
         if (ntab && tab[ntab - 1].d == new_d) tab[ntab - 1].clr = a[1];
         jb_puts(res, ",\"ret\":0");
@@ -332,7 +341,7 @@ static int drv_enum(vop_t *ops, int max)
     snapshot();
     for (s = 1; s <= NS; s++) {
         int room = npre < MAXALLOC || (raw_ptr(&S[s].data) != NULL);
-        for (c = 0; c < (NW >= 1 ? 4 : 2) && room; c++) { ADD(0, s, c, 0, 0); if (FAULTS) { ADD(0, s, c, 1, 0); ADD(0, s, c, 2, 0); } }
+        for (c = 0; c <= 4 && room; c++) { if ((c == 2 || c == 3) && NW < 1) continue; if (c == 4 && NS < 2) continue; ADD(0, s, c, 0, 0); if (FAULTS) { ADD(0, s, c, 1, 0); ADD(0, s, c, 2, 0); } }
         ADD(0, s, 0, 0, 1);
         for (t = 1; t <= NS; t++) { ADD(1, s, t, 0, 0); if (t >= s) ADD(2, s, t, 0, 0); }   /* t == s: swapped with itself */
         ADD(3, s, 0, 0, 0); ADD(4, s, 0, 0, 0); ADD(5, s, 0, 0, 0);
@@ -368,7 +377,7 @@ static int drv_random(unsigned long (*rnd)(void), vop_t *op)
     int u = NU ? 1 + (int)(rnd() % (unsigned)NU) : 0, u2 = NU ? 1 + (int)(rnd() % (unsigned)NU) : 0;
     snapshot();
     if (ntab > MAXA - 4 || a_nblk > A_MAX - 8) return 0;      /* tables full: end this walk */
-    if (r < 14 && (npre < MAXALLOC || raw_ptr(&S[s].data))) { op->k = 0; op->a[0] = s; op->a[1] = (int)(rnd() % (NW >= 1 ? 4 : 2)); op->a[2] = FAULTS && rnd() % 6 == 0 ? 1 + (int)(rnd() & 1) : 0; op->a[3] = rnd() % 12 == 0; }
+    if (r < 14 && (npre < MAXALLOC || raw_ptr(&S[s].data))) { op->k = 0; op->a[0] = s; op->a[1] = (int)(rnd() % (NW >= 1 ? 4 : 2)); if (NS >= 2 && rnd() % 5 == 0) op->a[1] = 4; op->a[2] = FAULTS && rnd() % 6 == 0 ? 1 + (int)(rnd() & 1) : 0; op->a[3] = rnd() % 12 == 0; }
     else if (r < 30) { op->k = 1; op->a[0] = s; op->a[1] = t; }
     else if (r < 36) { op->k = 2; op->a[0] = s; op->a[1] = t; }
     else if (r < 50) { op->k = 3; op->a[0] = s; }
